@@ -327,7 +327,8 @@ def run_manifest(w, acc, name, periods, ppk, mode, q, now, total, template='hand
             if mode == 'vod':
                 left = tot - src          # seconds of source after the Period's offset
                 ext = {'video': 'm4v', 'audio': 'm4a'}.get(kind, 'mp4')
-                for beyond_s in (left + Fraction(d, ts), left + 10 * Fraction(d, ts), Fraction(2 ** 32, ts)):
+                for beyond_s in (left - Fraction(1, ts), left + Fraction(d, ts), left + 10 * Fraction(d, ts), Fraction(2 ** 32, ts)):
+                    # (the first one is the exact end of the source: one tick before it, plus the tick added below)
                     tb = int(beyond_s * ts) + 1
                     tr = w.get(f'/mps/{mode}/{name}/{pk}/{rep.id}/time/{tb}.{ext}')
                     acc.count('evaluations')
